@@ -11,6 +11,7 @@ from .common import enum_switches_any, variant_names
 from .facts import op_place
 
 CRATES = {"gluon_parser"}
+THOROUGH_CONFIGS = ["default", "nodefault"]  # thorough also analyses the default-feature and the no-default-features builds
 FN = "gluon_parser::infix::reparse"
 FIX = "gluon_parser::infix::Fixity"
 OPMETA = "gluon_parser::infix::OpMeta"
